@@ -421,15 +421,22 @@ def check_step(s, rng, sc, step_log, out, history):
     W = {f: set(bvh.self_collision_whitelists_.get(f, ())) for f in frames}
     if frames and all(f in bvh.self_collision_whitelists_ for f in frames):
         out["evals"] += 2
-        try:
-            coll = {}
-            for f in frames:
-                for g in frames:
+        coll, unknown = {}, []
+        for f in frames:
+            for g in frames:
+                try:
                     coll[(f, g)] = bool(gjk.gjk_intersection(bvh.colliders_[f], bvh.colliders_[g]))
-        except Exception as e:                       # noqa
-            fail(cD, "no_exception", "all-pairs gjk_intersection (oracle) raised " + exc_text(e))
-            coll = None
-        if coll is not None:
+                except Exception as e:               # noqa  the narrow phase itself failed on this pair: the oracle cannot decide it
+                    coll[(f, g)] = None
+                    unknown.append((f, g, exc_text(e)))
+        if unknown:
+            out["undecided"] += 1
+            if out.get("oracle_exception") is None:
+                f, g, txt = unknown[0]
+                out["oracle_exception"] = dict(scenario=sc["id"], family=fam, pair=[f, g], error=txt, history=history,
+                                               colliders=[type(bvh.colliders_[x]).__name__ for x in (f, g)],
+                                               poses=[np.asarray(bvh.colliders_[x].collider2origin()).tolist() for x in (f, g)])
+        if True:
             try:
                 contacts = self_collision.detect(bvh)
             except Exception as e:                   # noqa
@@ -443,7 +450,7 @@ def check_step(s, rng, sc, step_log, out, history):
             tol_gap = 1e-9 * L
 
             def witnesses(f):
-                return [g for g in frames if g != f and g not in W[f] and coll[(f, g)]]
+                return [g for g in frames if g != f and g not in W[f] and coll[(f, g)] is True]
 
             def classify(ws_pairs):
                 """some witness pair has overlapping AABBs -> 'broad' (pipeline lost it); all have a real AABB gap -> 'aabb'; else undecided"""
@@ -469,13 +476,13 @@ def check_step(s, rng, sc, step_log, out, history):
                                  % (f, ws, sorted(W[f]), "" if kind == "broad" else " (their AABBs do not overlap: gaps %s)" % gaps),
                                  contacts={k: bool(v) for k, v in contacts.items()})
                     if marked:
-                        may = [g for g in frames if (g not in W[f] or f not in W[g]) and (coll[(f, g)] or coll[(g, f)])]
+                        may = [g for g in frames if (g not in W[f] or f not in W[g]) and (coll[(f, g)] is not False or coll[(g, f)] is not False)]
                         if not may:
                             fail(cD, "detect_marks_only", "frame %s is marked but collides with no frame g with g outside W[f] or f outside W[g]" % f,
                                  contacts={k: bool(v) for k, v in contacts.items()}, whitelists={k: sorted(v) for k, v in W.items()})
             if any_ is not None:
                 must = [(f, g) for f in frames for g in witnesses(f)]
-                may = any(coll[(f, g)] for f in frames for g in frames if g not in W[f])
+                may = any(coll[(f, g)] is not False for f in frames for g in frames if g not in W[f])
                 if must and not any_:
                     kind, gaps = classify(must)
                     if kind == "undecided":
@@ -486,8 +493,6 @@ def check_step(s, rng, sc, step_log, out, history):
                     fail(cD, "detect_any_exact", "detect_any is True although no frame collides with a frame outside its whitelist",
                          whitelists={k: sorted(v) for k, v in W.items()})
             n_col = sum(1 for f in frames for g in frames if f < g and coll[(f, g)])
-        else:
-            n_col = 0
     else:
         n_col = 0
     # ---- non-triviality of this step
@@ -576,7 +581,7 @@ def main():
         except Exception:                            # noqa
             warm_ok = False
     tot = dict(evals=0, nontriv=0, undecided=0)
-    agg, samples, harness_errors = {}, [], []
+    agg, samples, harness_errors, oracle_exc = {}, [], [], []
 
     def add(contract, obl, detail, inp, cnt=1):
         key = (contract, obl)
@@ -593,6 +598,8 @@ def main():
         tot["evals"] += r["evals"]
         tot["nontriv"] += r["nontrivial"]
         tot["undecided"] += r.get("undecided", 0)
+        if r.get("oracle_exception") is not None:
+            oracle_exc.append((task["id"], r["oracle_exception"]))
         if r.get("harness_error") and len(harness_errors) < 20:
             harness_errors.append(dict(task=task.get("id"), error=r["harness_error"]))
         for (c, o, n_, d, i) in r["fails"]:
@@ -631,6 +638,10 @@ def main():
                  undecided=tot["undecided"])
     if harness_errors:
         extra["harness_errors"] = harness_errors[:5]
+    if oracle_exc:
+        oracle_exc.sort(key=lambda x: x[0])
+        extra["oracle_exceptions"] = dict(count=len(oracle_exc), meaning="gjk_intersection raised on a pair in the all-pairs oracle; the pair is "
+                                          "treated as unknown (lenient both ways), the step is counted in `undecided`", first=oracle_exc[0][1])
     if not warm_ok:
         extra["note"] = "warm-up failed: %s" % ((warm_res[0][1].get("error") if warm_res else None) or warm_inc,)
     C.emit(t0, tot["evals"], tot["nontriv"], rule, pick, failures, domain, **extra)
